@@ -258,6 +258,11 @@ const SPECIAL: [&str; 56] = [
 const MISC: [&str; 14] = ["　", "、", "\n", "\t", "😀", "\u{10FFFF}", "a", "Z", "特a", "な。な", "\u{200D}", "👍\u{1F3FD}", "\u{0}", "𠮷"];
 
 fn gen_text(rng: &mut Rng, words: &[String]) -> String {
+    let s = gen_text_body(rng, words);
+    crate::c08::special_first(rng, s)
+}
+
+fn gen_text_body(rng: &mut Rng, words: &[String]) -> String {
     match rng.below(20) {
         0 => return String::new(),
         1 => return crate::c08::rand_string(rng, 10),
@@ -995,11 +1000,38 @@ pub fn pipeline(which: Prop, sink: &mut Sink, args: &Args, rng: &mut Rng) {
             run_session(sink, &dict, mode, &steps, &full, &ds0, false);
             sink.tag("directed");
         }
+        // special first characters (byte order mark, zero-width / no-break / ideographic space, combining mark, NUL, 4-byte
+        // character): alone, in front of ordinary text, in front of text the plugins rewrite -- with the full plugin stack,
+        // with no input-text plugin at all, and on a reused tokenizer
+        let bare = Stack { input: vec![], oov: 0, rewrite: 0 };
+        let dict_bare = load(&built[&(0, 0)], &bare).expect("bare configuration loads");
+        for f in crate::c08::FIRST_CHARS {
+            let texts = [f.to_string(), format!("{}東京都に行く", f), format!("{}東京Ｔ", f), format!("{}{}京都", f, f), format!("{}ＡＢ東京都（と）にすごーーい", f)];
+            for t in &texts {
+                for mode in 0..3 {
+                    run_one(sink, &dict, &Text::plain(t), mode, None, &full, &ds0, false);
+                    sink.tag("directed");
+                    sink.tag("special_first_character");
+                    run_one(sink, &dict_bare, &Text::plain(t), mode, None, &bare, &ds0, false);
+                    sink.tag("directed");
+                    sink.tag("special_first_character");
+                }
+            }
+            run_split(sink, &dict, &Text::plain(&texts[1]), None, &full, &ds0, false);
+            let steps: Vec<Step> = ["京都", texts[1].as_str(), "", texts[2].as_str(), texts[0].as_str(), "東京都"]
+                .iter()
+                .map(|s| Step { text: Text::plain(s), mode: 2, subset: None })
+                .collect();
+            run_session(sink, &dict, 2, &steps, &full, &ds0, false);
+            sink.tag("directed");
+            sink.tag("special_first_character");
+            run_session(sink, &dict_bare, 2, &steps, &bare, &ds0, false);
+            sink.tag("directed");
+            sink.tag("special_first_character");
+        }
         // the two length limits
         if which == Prop::C01 {
             // with the full plugin stack and with no input-text plugin at all
-            let bare = Stack { input: vec![], oov: 0, rewrite: 0 };
-            let dict_bare = load(&built[&(0, 0)], &bare).expect("bare configuration loads");
             for k in 0..args.n(20, 80) {
                 let t = gen_limit_text(rng);
                 let mode = rng.below(3) as u8;
